@@ -15,6 +15,7 @@ ASSUMPTIONS = [
     "model member paddings are compared for fixed structs only (negative 'dynamic' paddings are decided behaviourally by C03/C05/C08)",
 ]
 KINDNAME = {0: 'fixed', 1: 'dynamic', 2: 'unlimited'}
+TIMEOUT = {'quick': 1500, 'thorough': 10800}
 
 
 def shards(ctx):
@@ -168,7 +169,8 @@ def run_shard(spec):
 
 def finish(ctx, merged, specs):
     merged['exhaustive_note'] = C.exhaustive_note(ctx)
-    need = ['stiff-fixed', 'stiff-dynamic', 'stiff-unlimited']
+    need = ['stiff-fixed', 'stiff-dynamic', 'stiff-unlimited', 'cpp-stiff-fixed', 'cpp-stiff-dynamic',
+            'cpp-stiff-unlimited']
     missing = [f for f in need if f not in merged['features']]
     if missing and not merged['inconclusive'] and specs and specs[0]['kind'] != 'replay':
         merged['inconclusive'] = 'coverage floor not met: %s' % missing
